@@ -50,7 +50,7 @@ def t3(rep, tier, seed):
 def run(rep, tier, seed):
     rep.level = "exploration"
     rep.assume("A1", "A4", "A6", "A8")
-    D.run_contracts(rep, "C02", D.exact(), tier)
+    D.run_contracts(rep, "C02", D.exact() + D.cg16(tier), tier)
     D.run_contracts(rep, "C02", D.bounds(), tier, also=("C13",))
     t3(rep, tier, seed)
     D.link_falsifier(rep)
